@@ -421,6 +421,9 @@ class Engine:
             return ref
         if isinstance(v, VExt):
             return self.ext_term(st, v)
+        if isinstance(v, VCDict) and not v.items and t is not None and t.kind == "dict":
+            from . import dicts
+            return dicts.new_dict(self.b, st, t.args[0], t.args[1]).ref
         raise Unsupported(f"cannot store value {v!r} in the heap")
 
     def ext_term(self, st, v):
@@ -533,6 +536,10 @@ class Engine:
         v = self.wrap(st, term, l.elem)
         self.assume_wf(st, v, em if z3.is_const(em) else None)
         return v
+
+    def list_arr(self, st: State, l: VList):
+        """The element array of a heap list, with select-over-store simplified away."""
+        return z3.simplify(z3.Select(st.eltmap(sort_of(l.elem)), l.ref))
 
     def norm_index(self, st, n, idx):
         return z3.If(idx < 0, idx + n, idx)
